@@ -146,9 +146,15 @@ def make_table(rng):
                 rows += extra
         else:
             rows += extra
+    # serial numbers as deep inside a large entry (HETATM records whose five-digit serial touches the record name)
+    off = rng.choice([0, 0, 9990, 99000, 99999 - len(rows)])
     for i, r in enumerate(rows, 1):
-        r["serial"] = i
+        r["serial"] = i + off
         r["alt"] = None
+    # zero occupancy is an ordinary occupancy (atoms modelled without density): some, never all, atoms carry it
+    if rng.random() < 0.3:
+        for r in rng.sample(rows, max(1, len(rows) // 12)):
+            r["occ"] = 0.0
     return rows, {"source": fn, "start": start}
 
 
